@@ -13,7 +13,7 @@ PMenu == << [n |-> "id", loc |-> "path", kind |-> "str", req |-> TRUE], [n |-> "
             [n |-> "f", loc |-> "query", kind |-> "float", req |-> FALSE], [n |-> "u", loc |-> "path", kind |-> "uuid", req |-> TRUE],
             [n |-> "kind", loc |-> "path", kind |-> "enum", req |-> TRUE], [n |-> "X-Kind", loc |-> "header", kind |-> "enum", req |-> FALSE],
             [n |-> "page", loc |-> "cookie", kind |-> "int", req |-> FALSE], [n |-> "dark", loc |-> "cookie", kind |-> "bool", req |-> TRUE],
-            [n |-> "theme", loc |-> "cookie", kind |-> "enum", req |-> FALSE] >>
+            [n |-> "theme", loc |-> "cookie", kind |-> "enum", req |-> FALSE], [n |-> "ids", loc |-> "query", kind |-> "listform", req |-> FALSE] >>
 MenuSet == {PMenu[i] : i \in 1..Len(PMenu)}
 ParamSeqs == {q \in UNION {[1..k -> MenuSet] : k \in 0..MaxParams} : \A a, b \in 1..Len(q) : a # b => <<q[a].n, q[a].loc>> # <<q[b].n, q[b].loc>>}
 BodySeq == <<"none", "json", "jsonarr", "form", "multi", "octet", "json|form:json", "json|form:form", "vnd+json", "json;param">>
